@@ -1,20 +1,22 @@
 """C33 gossipsub caches keep exactly their documented windows — guards (K1), path counting (K2), order (K3), writers / pairing (K4), origin (K5)."""
 import re
 
-from .. import lib, mir
-from ..mir import render
+from .. import lib, lib_gs2, mir
+from ..lib_gs2 import Canon, rel_pred, var_pred, bool_pred
+from ..mir import render, strip_generics
 
 EXPLANATION = ("DuplicateCache/TimeCache: a key is inserted (map + expiry list, both with the same `now + ttl`) only on the Vacant edge, an "
-               "Occupied lookup mutates nothing (no refresh: no write to `expires` exists outside VacantEntry::insert), insert() reports "
-               "true exactly on the Vacant edge; expiry runs before every lookup with the same `now`; remove_expired_keys removes a map "
-               "entry only for the popped list element, only when that element is not `expires > now` and the map entry's own expiry is "
-               "`<= now`, re-queues a not-yet-expired element at the front and stops; the list is only popped at the front and appended at "
+               "Occupied lookup mutates nothing (no refresh: no write to the expiry field exists outside VacantEntry::insert), insert() "
+               "reports true exactly on the Vacant edge; expiry runs before every lookup with the same `now`; remove_expired_keys removes a "
+               "map entry only for the popped list element, only when that element is due (not expires > now) and the map entry's own "
+               "expiry is due, re-queues a not-yet-due element at the front and stops; the list is only popped at the front and appended at "
                "the back. MessageCache: built with (history_gossip, history_length) in that order; put inserts only on Vacant, records the id "
                "in history[0] exactly once, ignores duplicates; get_with_iwant_counts returns validated messages only and adds exactly one "
-               "to the (message id, peer) counter it returns; get_gossip_message_ids reads history[..gossip] and keeps entries of the topic "
-               "whose message is present and validated; shift pops the last slot once, removes msgs and iwant_counts for every popped "
-               "entry and inserts one empty slot at index 0; every removal from msgs (shift, remove) is paired with the removal of the id's "
-               "iwant counters; heartbeat shifts exactly once.")
+               "to the (message id, peer) counter it returns; get_gossip_message_ids reads only history[..gossip] and emits an id only for "
+               "entries of the requested topic whose message is present and validated, and emits every such entry (iterator-adaptor form or "
+               "explicit loops); shift pops the last slot once, removes msgs and iwant_counts for every popped entry and inserts one empty "
+               "slot at index 0; every removal from msgs (shift, remove) is paired with the removal of the id's iwant counters; heartbeat "
+               "shifts exactly once. Fields are identified by their types, parameters by position, locals by role.")
 ASSUMPTIONS = ["window lengths against a real clock (Instant arithmetic, monotonicity of Instant::now) are not decided",
                "DuplicateCache::contains does not expire lazily-kept entries (expiry happens on the next insert): not part of the claim",
                "std HashMap / VecDeque / Vec semantics"]
@@ -25,215 +27,279 @@ MC = r"^libp2p_gossipsub::mcache::MessageCache::"
 SELFTEST = [
     {"mutation": "seeded/C33: MessageCache::remove no longer removes iwant_counts", "caught_by": "mcache-remove/every msgs removal also drops the id's iwant counters (MessageCache::remove)"},
     {"mutation": "TimeCache::entry Occupied arm: `entry.get_mut().expires = now` (refresh on re-insertion)", "caught_by": "dup-who/expiry of a stored key is never rewritten"},
-    {"mutation": "remove_expired_keys: `element.expires > now` -> `element.expires < now`", "caught_by": "dup-expire/removal only for an element that is not `expires > now`"},
+    {"mutation": "remove_expired_keys: `element.expires > now` -> `element.expires < now`", "caught_by": "dup-expire/removal only for an element that is due (not `expires > now`)"},
     {"mutation": "remove_expired_keys: push_front(element) -> push_back(element)", "caught_by": "dup-expire/list is only popped at the front / re-queued at the front"},
     {"mutation": "TimeCache::entry: remove_expired_keys call deleted", "caught_by": "dup-entry/floor:remove_expired_keys call"},
     {"mutation": "MessageCache::new(config.history_length(), config.history_gossip()) swapped in Behaviour::new", "caught_by": "mcache-new/Behaviour builds the cache with (history_gossip, history_length)"},
-    {"mutation": "get_gossip_message_ids: `history[..self.gossip]` -> `history[..]`", "caught_by": "mcache-gossip/gossip window is history[..gossip]"},
-    {"mutation": "get_gossip_message_ids: `if let Some(true)` -> `if let Some(_)`", "caught_by": "mcache-gossip/only validated messages of the topic are offered"},
+    {"mutation": "get_gossip_message_ids: `history[..self.gossip]` -> `history[..]`", "caught_by": "mcache-gossip/only history[..gossip] is read"},
+    {"mutation": "get_gossip_message_ids: `if let Some(true)` -> `if let Some(_)`", "caught_by": "mcache-gossip/an id is offered only for a present, validated message"},
     {"mutation": "get_with_iwant_counts: `*count += 1` -> `*count += 2`", "caught_by": "mcache-iwant/counter is incremented by exactly one per request"},
-    {"mutation": "shift: `self.history.insert(0, Vec::new())` -> `self.history.push(Vec::new())`", "caught_by": "mcache-shift/history is only tested, popped and front-inserted"},
+    {"mutation": "shift: `self.history.insert(0, Vec::new())` -> `self.history.push(Vec::new())`", "caught_by": "mcache-shift/history is only popped and front-inserted"},
     {"mutation": "shift: `self.iwant_counts.remove(&entry.mid)` deleted", "caught_by": "mcache-remove/every msgs removal also drops the id's iwant counters (MessageCache::shift)"},
     {"mutation": "put: `self.history[0].push(cache_entry)` -> `self.history[1].push(..)`", "caught_by": "mcache-put/new id is recorded in history[0]"},
+    {"mutation": "neutral/gs/08 (iterator chain -> explicit loops in get_gossip_message_ids)", "caught_by": "(silent, as required)"},
 ]
+MUT = r"::(insert|extend|append|push|push_back|push_front|pop|pop_front|pop_back|remove|retain|clear|truncate|drain|split_off|swap_remove|resize|entry|get_mut|rotate_\w+)$"
 
 
-def ret_exprs(b):
+def fld(prog, adt_pat, ty_pat):
+    a = prog.adt(G, adt_pat)
+    hits = [f["n"] for f in a["variants"][0]["fields"] if re.search(ty_pat, f["ty"])]
+    if len(hits) != 1:
+        raise mir.RuleError("field of %s with type %s: %d hits" % (adt_pat, ty_pat, len(hits)))
+    return hits[0]
+
+
+def calls_on(cx, recv_pat):
+    """(site, callee) of non-transparent calls whose first argument canonically renders to something matching recv_pat."""
+    rx = re.compile(recv_pat)
     out = []
-    for x in b.defs[0]:
-        s = mir.Site(b, x[1], x[2])
-        out.append((s, render(b.call_expr(x[3], x[1])) if x[0] == "call" else render(b.rvalue_expr(x[3]))))
+    for s in cx.b.call_sites():
+        n = strip_generics(cx.b.call_name(s.term))
+        if lib_gs2.TRANSPARENT.search(n):
+            continue
+        a = cx.args(s)
+        if a and rx.search(render(a[0])):
+            out.append((s, n))
     return out
 
 
-def calls_on(b, recv_pat):
-    """(site, callee) of calls whose first argument renders to something matching recv_pat."""
-    rx = re.compile(recv_pat)
-    out = []
-    for s in b.call_sites():
-        e = b.site_expr(s)
-        if e[2] and rx.search(render(e[2][0])):
-            out.append((s, mir.strip_generics(b.call_name(s.term))))
+def family(prog, body):
+    out, work = [], [body]
+    while work:
+        b = work.pop()
+        out.append(b)
+        work.extend(prog.children(b))
     return out
 
 
 def check(ctx):
     prog = ctx.prog
+    # fields by type
+    F_MAP = fld(prog, r"time_cache::TimeCache$", r"HashMap<")
+    F_LIST = fld(prog, r"time_cache::TimeCache$", r"VecDeque<")
+    F_TTL = fld(prog, r"time_cache::TimeCache$", r"Duration$")
+    F_EXP = fld(prog, r"time_cache::ExpiringElement$", r"Instant$")
+    F_ELT = fld(prog, r"time_cache::ExpiringElement$", r"^(?!.*Instant)")
+    V_EXP = fld(prog, r"time_cache::VacantEntry$", r"Instant$")
+    V_ENT = fld(prog, r"time_cache::VacantEntry$", r"hash_map::VacantEntry<")
+    V_LIST = fld(prog, r"time_cache::VacantEntry$", r"VecDeque<")
+    O_ENT = fld(prog, r"time_cache::OccupiedEntry$", r"hash_map::OccupiedEntry<")
+    M_MSGS = fld(prog, r"mcache::MessageCache$", r"^std::collections::HashMap<types::MessageId, \(types::RawMessage")
+    M_IW = fld(prog, r"mcache::MessageCache$", r"^std::collections::HashMap<types::MessageId, std::collections::HashMap<")
+    M_HIST = fld(prog, r"mcache::MessageCache$", r"^std::vec::Vec<std::vec::Vec<")
+    M_GOSSIP = fld(prog, r"mcache::MessageCache$", r"^usize$")
+    E_MID = fld(prog, r"mcache::CacheEntry$", r"MessageId$")
+    E_TOPIC = fld(prog, r"mcache::CacheEntry$", r"TopicHash$")
     # =================================================================== DuplicateCache / TimeCache
     di = ctx.body(G, TC + r"DuplicateCache::insert$")
+    cdi = Canon(prog, di)
     diw = "%s:%d" % (di.file, di.line)
     ent = di.call_sites(r"time_cache::TimeCache::entry$")
     ins = di.call_sites(r"time_cache::VacantEntry::insert$")
     ctx.floor("dup-insert", "TimeCache::entry call", ent, 1, exact=True)
     ctx.floor("dup-insert", "VacantEntry::insert call", ins, 1, exact=True)
     if ent and ins:
-        vac = lib.switch_edges_on_site(di, ent[0], {"Vacant"}, r"^discr\(")
-        ctx.ob("dup-insert", "floor:Vacant edge", len(vac) == 1, nontrivial=False, msg=str(sorted(vac)))
-        ctx.ob("dup-insert", "a key is stored only when it is absent (Vacant)", bool(vac) and di.must_pass_edges(ins[0].bb, vac), ins[0].loc(), "VacantEntry::insert dominated by the Vacant edge of self.0.entry(key)")
-        a = render(di.site_expr(ins[0])[2][0])
-        ctx.ob("dup-insert", "the vacant entry filled is the one looked up", a.endswith("TimeCache::entry(self.0, key)@Vacant.0"), ins[0].loc(), a[-80:])
-        for s, r in ret_exprs(di):
+        ENT = r"libp2p_gossipsub::time_cache::TimeCache::entry\(\$1\.0, \$2\)"
+        vac = cdi.edges(var_pred("^%s$" % ENT, {"Vacant"}))
+        ctx.ob("dup-insert", "floor:Vacant edge", bool(vac), nontrivial=False, msg=str(sorted(vac)))
+        ctx.ob("dup-insert", "a key is stored only when it is absent (Vacant)", cdi.dominated(ins[0].bb, vac), ins[0].loc(), "VacantEntry::insert dominated by the Vacant edge of self.0.entry(key)")
+        a = render(cdi.args(ins[0])[0])
+        ctx.ob("dup-insert", "the vacant entry filled is the one looked up", re.match("^%s@Vacant\\.0$" % ENT, a) is not None, ins[0].loc(), a[-80:])
+        for s, e in cdi.returns():
+            r = render(e)
             if r == "1":
-                ok = bool(vac) and di.must_pass_edges(s.bb, vac) and di.must_pass_nodes([0], [s.bb], lib.bbs(ins))
+                ok = cdi.dominated(s.bb, vac) and di.must_pass_nodes([0], [s.bb], lib.bbs(ins))
                 ctx.ob("dup-insert", "`true` (first sighting) only after storing a vacant key", ok, s.loc(), "true dominated by Vacant edge + insert")
             elif r == "0":
                 ok = all(s.bb not in di.reachable([t]) for _, t in vac)
                 ctx.ob("dup-insert", "`false` (seen before) never for a vacant key", ok, s.loc(), "false not reachable from the Vacant edge")
             else:
                 ctx.ob("dup-insert", "result is a constant verdict", False, s.loc(), r[:80])
-        names = sorted({n for _, n in calls_on(di, r".")})
+        names = sorted({n for _, n in calls_on(cdi, r".")})
         ctx.ob("dup-insert", "re-insertion does not touch the cache (no refresh)", names == ["libp2p_gossipsub::time_cache::TimeCache::entry", "libp2p_gossipsub::time_cache::VacantEntry::insert"], diw, str(names))
     # TimeCache::entry
     te = ctx.body(G, TC + r"TimeCache::entry$")
+    cte = Canon(prog, te)
     tew = "%s:%d" % (te.file, te.line)
     rex = te.call_sites(r"time_cache::TimeCache::remove_expired_keys$")
-    look = [s for s, n in calls_on(te, r"^self\.map$") if n.endswith("HashMap::entry")]
+    look = [s for s, n in calls_on(cte, r"^\$1\.%s$" % F_MAP) if n.endswith("HashMap::entry")]
     nowc = te.call_sites(r"Instant::now$")
     ctx.floor("dup-entry", "remove_expired_keys call", rex, 1, exact=True)
     ctx.floor("dup-entry", "map.entry(key)", look, 1, exact=True)
     ctx.floor("dup-entry", "Instant::now()", nowc, 1, exact=True)
     if rex and look:
         lib.precedes(ctx, "dup-entry", "expiry runs before the lookup", te, lib.bbs(rex), lib.bbs(look), "remove_expired_keys precedes map.entry", rex[0].loc())
-        a = te.site_expr(rex[0])[2]
-        ctx.ob("dup-entry", "expiry uses the current time", len(a) == 2 and render(a[0]) == "self" and a[1][0] == "call" and nowc and a[1][3] == nowc[0].bb, rex[0].loc(), render(a[1])[:80] if len(a) > 1 else "")
-        ctx.ob("dup-entry", "looked-up key is the argument", render(te.site_expr(look[0])[2][1]) == "key", look[0].loc(), render(te.site_expr(look[0])[2][1]))
-        occ = lib.switch_edges_on_site(te, look[0], {"Occupied"}, r"^discr\(")
-        ctx.ob("dup-entry", "floor:Occupied edge", len(occ) == 1, nontrivial=False, msg=str(sorted(occ)))
+        a = cte.args(rex[0])
+        ctx.ob("dup-entry", "expiry uses the current time", len(a) == 2 and render(a[0]) == "$1" and a[1][0] == "call" and nowc and a[1][3] == nowc[0].bb, rex[0].loc(), render(a[1])[:80] if len(a) > 1 else "")
+        ctx.ob("dup-entry", "looked-up key is the argument", render(cte.args(look[0])[1]) == "$2", look[0].loc(), render(cte.args(look[0])[1]))
+        LK = r"^std::collections::HashMap::entry\(\$1\.%s, \$2\)$" % F_MAP
+        occ = cte.edges(var_pred(LK, {"Occupied"}))
+        ctx.ob("dup-entry", "floor:Occupied edge", bool(occ), nontrivial=False, msg=str(sorted(occ)))
         for _, t in occ:
             r = te.reachable([t])
-            cs = [mir.strip_generics(te.call_name(s.term)) for s in te.call_sites() if s.bb in r]
+            cs = [strip_generics(te.call_name(s.term)) for s in te.call_sites() if s.bb in r and not lib_gs2.TRANSPARENT.search(strip_generics(te.call_name(s.term)))]
             ctx.ob("dup-entry", "an Occupied lookup mutates nothing (expiry is not refreshed)", cs == [], tew, "calls on the Occupied arm: %s" % cs)
     vag = te.agg_sites(r"time_cache::VacantEntry$")
     ctx.floor("dup-entry", "VacantEntry construction", vag, 1, exact=True)
     for s in vag:
-        e = te.site_expr(s)
-        f = dict(e[4])
-        exp = f.get("expiration")
-        ok = exp is not None and exp[0] == "call" and re.search(r"Option::unwrap_or_else$", mir.strip_generics(exp[1])) is not None
-        inner = exp[2][0] if ok else None
-        ok = ok and inner[0] == "call" and re.search(r"Instant::checked_add$", mir.strip_generics(inner[1])) is not None and render(inner[2][1]) == "self.ttl" and \
-            inner[2][0][0] == "call" and nowc and inner[2][0][3] == nowc[0].bb
+        f = dict(cte.site(s)[4])
+        exp = f.get(V_EXP)
+        inner = None
+        for x in mir.walk(exp) if exp else []:
+            if x[0] == "call" and re.search(r"Instant::checked_add$|ops::Add>::add$|Instant as std::ops::Add", strip_generics(x[1])):
+                inner = x
+                break
+        ok = inner is not None and len(inner[2]) == 2 and render(inner[2][1]) == "$1.%s" % F_TTL and inner[2][0][0] == "call" and nowc and inner[2][0][3] == nowc[0].bb
         ctx.ob("dup-entry", "expiry of a new key = now + ttl (same `now` as the expiry sweep)", bool(ok), s.loc(), render(exp)[:120] if exp else "")
-        ctx.ob("dup-entry", "new key is appended to this cache's expiry list", render(f.get("list", ("unknown", "?"))) == "self.list" and render(f.get("entry", ("unknown", "?"))).endswith("@Vacant.0"), s.loc(),
-               "list=%s" % render(f.get("list", ("unknown", "?"))))
+        ctx.ob("dup-entry", "new key is appended to this cache's expiry list", render(f.get(V_LIST, ("unknown", "?"))) == "$1.%s" % F_LIST and render(f.get(V_ENT, ("unknown", "?"))).endswith("@Vacant.0"), s.loc(),
+               "list=%s" % render(f.get(V_LIST, ("unknown", "?"))))
     # VacantEntry::insert
     vi = ctx.body(G, TC + r"VacantEntry::insert$")
+    cvi = Canon(prog, vi)
     viw = "%s:%d" % (vi.file, vi.line)
-    pb = [s for s, n in calls_on(vi, r"^self\.list$")]
+    pb = [(s, n) for s, n in calls_on(cvi, r"^\$1\.%s$" % V_LIST)]
     ctx.floor("dup-store", "list mutation in VacantEntry::insert", pb, 1, exact=True)
-    for s in pb:
-        n = mir.strip_generics(vi.call_name(s.term))
+    EE = r"libp2p_gossipsub::time_cache::ExpiringElement::ExpiringElement"
+    for s, n in pb:
         ctx.ob("dup-store", "new key goes to the back of the expiry list", n.endswith("VecDeque::push_back"), s.loc(), n)
-        r = render(vi.site_expr(s)[2][1])
-        ctx.ob("dup-store", "list element = (this key, this expiry)", re.match(r"^libp2p_gossipsub::time_cache::ExpiringElement::ExpiringElement\{element: std::clone::Clone::clone\(std::collections::hash_map::VacantEntry::key\(self\.entry\)\), expires: self\.expiration\}$", r) is not None, s.loc(), r[:200])
+        r = render(cvi.args(s)[1])
+        ok = re.match(r"^%s\{%s: std::collections::hash_map::VacantEntry::key\(\$1\.%s\), %s: \$1\.%s\}$" % (EE, F_ELT, V_ENT, F_EXP, V_EXP), r) is not None or \
+            re.match(r"^%s\{%s: \$1\.%s, %s: std::collections::hash_map::VacantEntry::key\(\$1\.%s\)\}$" % (EE, F_EXP, V_EXP, F_ELT, V_ENT), r) is not None
+        ctx.ob("dup-store", "list element = (this key, this expiry)", ok, s.loc(), r[:200])
         lib.expect_count(ctx, "dup-store", "list append exactly once per stored key", vi, [0], vi.return_blocks(), [s.bb], (1, 1), "push_back per insert", s.loc())
-    mi = vi.call_sites(r"hash_map::VacantEntry::insert$")
+    mi = vi.call_sites(r"hash_map::VacantEntry::insert(_entry)?$")
     ctx.floor("dup-store", "map insert in VacantEntry::insert", mi, 1, exact=True)
     for s in mi:
-        r = render(vi.site_expr(s)[2][1])
-        ctx.ob("dup-store", "map value carries the same expiry as the list element", re.match(r"^libp2p_gossipsub::time_cache::ExpiringElement::ExpiringElement\{element: value, expires: self\.expiration\}$", r) is not None, s.loc(), r[:160])
+        a = cvi.args(s)
+        f = dict((k, render(x)) for k, x in a[1][4]) if len(a) == 2 and a[1][0] == "agg" else {}
+        ctx.ob("dup-store", "map value carries the same expiry as the list element", f.get(F_EXP) == "$1.%s" % V_EXP and f.get(F_ELT) == "$2" and render(a[0]) == "$1.%s" % V_ENT, s.loc(), str(f)[:160])
         lib.expect_count(ctx, "dup-store", "map insert exactly once per stored key", vi, [0], vi.return_blocks(), [s.bb], (1, 1), "map insert per insert", s.loc())
     # remove_expired_keys
     rk = ctx.body(G, TC + r"TimeCache::remove_expired_keys$")
+    crk = Canon(prog, rk)
     rkw = "%s:%d" % (rk.file, rk.line)
-    POP = r"std::collections::VecDeque::pop_front\(self\.list\)@Some\.0"
-    rem = rk.call_sites(r"hash_map::OccupiedEntry::remove(_entry)?$")
+    POP = r"std::collections::VecDeque::pop_front\(\$1\.%s\)@Some\.0" % F_LIST
+    rem = rk.call_sites(r"hash_map::OccupiedEntry::remove(_entry)?$|HashMap::remove$")
     ctx.floor("dup-expire", "map removal", rem, 1, exact=True)
     pops = rk.call_sites(r"VecDeque::pop_front$")
     ctx.floor("dup-expire", "pop_front", pops, 1, exact=True)
-    fresh_true = lambda c, r, l: ((l == "true" and re.match(r"^std::cmp::PartialOrd::g[te]\(%s\.expires, now\)$" % POP, r) is not None) or
-                                  (l == "false" and re.match(r"^std::cmp::PartialOrd::l[te]\(%s\.expires, now\)$" % POP, r) is not None) or
-                                  (l == "true" and re.match(r"^std::cmp::PartialOrd::l[te]\(now, %s\.expires\)$" % POP, r) is not None))
-    stale = lambda c, r, l: ((l == "false" and re.match(r"^std::cmp::PartialOrd::g[te]\(%s\.expires, now\)$" % POP, r) is not None) or
-                             (l == "true" and re.match(r"^std::cmp::PartialOrd::l[te]\(%s\.expires, now\)$" % POP, r) is not None) or
-                             (l == "false" and re.match(r"^std::cmp::PartialOrd::l[te]\(now, %s\.expires\)$" % POP, r) is not None))
-    ENT = r"std::collections::HashMap::entry\(self\.map, std::clone::Clone::clone\(%s\.element\)\)" % POP
+    stale = crk.edges(rel_pred(r"^%s\.%s$" % (POP, F_EXP), r"^\$2$", "Le"))
+    fresh = {(bi, t) for bi in {b_ for b_, _ in stale} for t in rk.succ[bi] if (bi, t) not in stale}
+    ENT = r"std::collections::HashMap::entry\(\$1\.%s, %s\.%s\)" % (F_MAP, POP, F_ELT)
     for s in rem:
-        ctx.guarded("dup-expire", "removal only for an element that is not `expires > now`", s, stale, "popped element is due (not expires > now)")
-        ctx.guarded("dup-expire", "removal only of the popped element's own key", s, lambda c, r, l: l == "Occupied" and re.match(r"^discr\(%s\)$" % ENT, r) is not None, "map.entry(element.key) is Occupied")
-        ctx.guarded("dup-expire", "removal only if the stored entry itself is due", s,
-                    lambda c, r, l: (l == "true" and re.match(r"^std::cmp::PartialOrd::l[te]\(std::collections::hash_map::OccupiedEntry::get\(%s@Occupied\.0\)\.expires, now\)$" % ENT, r) is not None) or
-                                    (l == "false" and re.match(r"^std::cmp::PartialOrd::g[te]\(std::collections::hash_map::OccupiedEntry::get\(%s@Occupied\.0\)\.expires, now\)$" % ENT, r) is not None),
-                    "entry.get().expires <= now")
-        a = render(rk.site_expr(s)[2][0])
-        ctx.ob("dup-expire", "the entry removed is the entry tested", re.match(r"^%s@Occupied\.0$" % ENT, a) is not None, s.loc(), a[-120:])
-    fe = rk.guard_edges(fresh_true)
-    ctx.ob("dup-expire", "floor:not-yet-expired edge", len(fe) == 1, nontrivial=False, msg=str(sorted(fe)))
-    lm = calls_on(rk, r"^self\.list$")
+        ctx.ob("dup-expire", "removal only for an element that is due (not `expires > now`)", crk.dominated(s.bb, stale), s.loc(), "popped element's expiry <= now")
+        a = render(crk.args(s)[0])
+        if "OccupiedEntry::remove" in strip_generics(rk.call_name(s.term)):
+            ctx.ob("dup-expire", "removal only of the popped element's own key", crk.dominated(s.bb, crk.edges(var_pred("^%s$" % ENT, {"Occupied"}))) and re.match(r"^%s@Occupied\.0$" % ENT, a) is not None, s.loc(), a[-120:])
+            own = crk.edges(rel_pred(r"^std::collections::hash_map::OccupiedEntry::get\(%s@Occupied\.0\)\.%s$" % (ENT, F_EXP), r"^\$2$", "Le"))
+        else:
+            k = render(crk.args(s)[1])
+            ctx.ob("dup-expire", "removal only of the popped element's own key", a == "$1.%s" % F_MAP and re.match(r"^%s\.%s$" % (POP, F_ELT), k) is not None, s.loc(), k[-120:])
+            own = crk.edges(rel_pred(r"^std::collections::HashMap::get\(\$1\.%s, %s\.%s\)@Some\.0\.%s$" % (F_MAP, POP, F_ELT, F_EXP), r"^\$2$", "Le"))
+        ctx.ob("dup-expire", "removal only if the stored entry itself is due", crk.dominated(s.bb, own), s.loc(), "entry's own expiry <= now")
+    ctx.ob("dup-expire", "floor:not-yet-due edge", bool(fresh), nontrivial=False, msg=str(sorted(fresh)))
+    lm = calls_on(crk, r"^\$1\.%s$" % F_LIST)
     ctx.ob("dup-expire", "list is only popped at the front / re-queued at the front", sorted(n.split("::")[-1] for _, n in lm) == ["pop_front", "push_front"], rkw, str(sorted(n for _, n in lm)))
     pf = [s for s, n in lm if n.endswith("push_front")]
-    for _, t in fe:
+    for _, t in fresh:
         got = lib.count_range(rk, [t], rk.return_blocks() + lib.bbs(pops), lib.bbs(pf))
-        ctx.ob("dup-expire", "a not-yet-expired element is put back exactly once", got == (1, 1), rkw, "push_front on the not-yet-expired edge: %s" % (got,))
+        ctx.ob("dup-expire", "a not-yet-due element is put back exactly once", got == (1, 1), rkw, "push_front on the not-yet-due edge: %s" % (got,))
         r = rk.reachable([t])
-        ctx.ob("dup-expire", "the sweep stops at the first not-yet-expired element", not (set(lib.bbs(pops)) & r) and not (set(lib.bbs(rem)) & r), rkw, "no further pop / removal after re-queueing")
+        ctx.ob("dup-expire", "the sweep stops at the first not-yet-due element", not (set(lib.bbs(pops)) & r) and not (set(lib.bbs(rem)) & r), rkw, "no further pop / removal after re-queueing")
     for s in pf:
-        a = render(rk.site_expr(s)[2][1])
+        a = render(crk.args(s)[1])
         ctx.ob("dup-expire", "the element put back is the element popped", re.match("^%s$" % POP, a) is not None, s.loc(), a[-80:])
-        ctx.guarded("dup-expire", "put back only when not yet expired", s, fresh_true, "expires > now")
+        ctx.ob("dup-expire", "put back only when not yet due", bool(fresh) and rk.must_pass_edges(s.bb, fresh), s.loc(), "expires > now")
     # readers
-    for fn, want in ((r"TimeCache::contains_key$", "std::collections::HashMap::contains_key(self.map, key)"), (r"DuplicateCache::contains$", "libp2p_gossipsub::time_cache::TimeCache::contains_key(self.0, key)")):
-        b = ctx.body(G, TC + fn)
-        r0 = [r for _, r in ret_exprs(b)]
-        ctx.ob("dup-read", "%s reads the map" % fn.rstrip("$"), r0 == [want], "%s:%d" % (b.file, b.line), str(r0))
+    b = ctx.body(G, TC + r"TimeCache::contains_key$")
+    r0 = [render(e) for _, e in Canon(prog, b).returns()]
+    ctx.ob("dup-read", "TimeCache::contains_key reads the map", r0 == ["std::collections::HashMap::contains_key($1.%s, $2)" % F_MAP], "%s:%d" % (b.file, b.line), str(r0))
+    b = ctx.body(G, TC + r"DuplicateCache::contains$")
+    r0 = [render(e) for _, e in Canon(prog, b).returns()]
+    ctx.ob("dup-read", "DuplicateCache::contains reads the map", r0 == ["libp2p_gossipsub::time_cache::TimeCache::contains_key($1.0, $2)"], "%s:%d" % (b.file, b.line), str(r0))
     # constructors
     b = ctx.body(G, TC + r"TimeCache::new$")
     ag = b.agg_sites(r"time_cache::TimeCache$")
-    ctx.ob("dup-new", "TimeCache::new stores ttl", len(ag) == 1 and dict((k, render(x)) for k, x in b.site_expr(ag[0])[4]).get("ttl") == "ttl", "%s:%d" % (b.file, b.line), "")
+    ctx.ob("dup-new", "TimeCache::new stores ttl", len(ag) == 1 and dict((k, render(x)) for k, x in Canon(prog, b).site(ag[0])[4]).get(F_TTL) == "$1", "%s:%d" % (b.file, b.line), "")
     b = ctx.body(G, TC + r"DuplicateCache::new$")
-    r0 = [r for _, r in ret_exprs(b)]
-    ctx.ob("dup-new", "DuplicateCache::new passes ttl", r0 == ["libp2p_gossipsub::time_cache::DuplicateCache::DuplicateCache{0: libp2p_gossipsub::time_cache::TimeCache::new(ttl)}"], "%s:%d" % (b.file, b.line), str(r0)[:200])
+    r0 = [render(e) for _, e in Canon(prog, b).returns()]
+    ctx.ob("dup-new", "DuplicateCache::new passes ttl", r0 == ["libp2p_gossipsub::time_cache::DuplicateCache::DuplicateCache{0: libp2p_gossipsub::time_cache::TimeCache::new($1)}"], "%s:%d" % (b.file, b.line), str(r0)[:200])
     # who writes expiry / builds elements
-    tcb = [b for b in prog.bodies(G) if re.search(TC, b.npath)]
-    w = [(b.npath, s) for b in tcb for s in b.field_write_sites("expires") + b.field_write_sites("expiration")]
-    ctx.ob("dup-who", "expiry of a stored key is never rewritten", not w, w[0][1].loc() if w else "", "assignments to .expires/.expiration: %s" % [x for x, _ in w])
-    aggs = [(b.npath, s) for b in prog.bodies(G) for s in b.agg_sites(r"time_cache::ExpiringElement$")]
+    tcb = [b_ for b_ in prog.bodies(G) if re.search(TC, b_.npath)]
+    w = [(b_.npath, s) for b_ in tcb for s in b_.field_write_sites(F_EXP) + b_.field_write_sites(V_EXP)]
+    ctx.ob("dup-who", "expiry of a stored key is never rewritten", not w, w[0][1].loc() if w else "", "assignments to the expiry fields: %s" % [x for x, _ in w])
+    aggs = [(b_.npath, s) for b_ in prog.bodies(G) for s in b_.agg_sites(r"time_cache::ExpiringElement$")]
     ctx.ob("dup-who", "expiring elements are only created when a vacant key is stored", len(aggs) == 2 and {x for x, _ in aggs} == {vi.npath}, viw, str(sorted({x for x, _ in aggs})))
-    mm = sorted({n.split("::")[-1] for b in tcb for _, n in calls_on(b, r"(^|\.)map$") if "HashMap" in n})
-    ctx.ob("dup-who", "the map is only accessed through entry / contains_key", set(mm) <= {"entry", "contains_key", "default", "clear"} and "entry" in mm, msg=str(mm))
+    mm = sorted({n.split("::")[-1] for b_ in tcb for _, n in calls_on(Canon(prog, b_), r"(^|\.)%s$" % F_MAP) if "HashMap" in n})
+    ctx.ob("dup-who", "the map is only accessed through entry / contains_key", set(mm) <= {"entry", "contains_key", "default", "clear", "get", "len", "is_empty"} and "entry" in mm, msg=str(mm))
     im = ctx.body(G, TC + r"OccupiedEntry::into_mut$")
-    r0 = [r for _, r in ret_exprs(im)]
-    ctx.ob("dup-who", "OccupiedEntry exposes only the value, not the expiry", r0 == ["std::collections::hash_map::OccupiedEntry::into_mut(self.entry).element"], "%s:%d" % (im.file, im.line), str(r0))
+    r0 = [render(e) for _, e in Canon(prog, im).returns()]
+    ctx.ob("dup-who", "OccupiedEntry exposes only the value, not the expiry", r0 == ["std::collections::hash_map::OccupiedEntry::into_mut($1.%s).%s" % (O_ENT, F_ELT)], "%s:%d" % (im.file, im.line), str(r0))
     # =================================================================== MessageCache
     nb = ctx.body(G, MC + r"new$")
-    nn = [nb.names.get(i) for i in range(1, nb.argc + 1)]
-    ctx.ob("mcache-new", "floor:MessageCache::new(gossip, history_capacity)", nn == ["gossip", "history_capacity"], "%s:%d" % (nb.file, nb.line), str(nn), nontrivial=False)
+    cnb = Canon(prog, nb)
     ag = nb.agg_sites(r"mcache::MessageCache$")
     ctx.floor("mcache-new", "MessageCache construction", ag, 1, exact=True)
+    gpos = hpos = None
     for s in ag:
-        f = dict((k, render(x)) for k, x in nb.site_expr(s)[4])
-        ctx.ob("mcache-new", "history has history_capacity empty slots, gossip window stored", f.get("gossip") == "gossip" and f.get("history") == "std::vec::from_elem(std::vec::Vec::new(), history_capacity)", s.loc(), "gossip=%s history=%s" % (f.get("gossip"), f.get("history")))
+        f = dict(cnb.site(s)[4])
+        g_, h_ = f.get(M_GOSSIP), f.get(M_HIST)
+        gpos = g_[1] if g_ is not None and g_[0] == "arg" else None
+        ha = [x for x in mir.walk(h_) if x[0] == "arg"] if h_ is not None else []
+        hpos = ha[0][1] if len(ha) == 1 else None
+        ctx.ob("mcache-new", "history has `capacity` empty slots, gossip window stored", gpos is not None and hpos is not None and gpos != hpos and re.match(r"^std::vec::from_elem\(std::vec::Vec::new\(\), \$%d\)$" % hpos, render(h_)) is not None, s.loc(),
+               "gossip=%s history=%s" % (render(g_) if g_ else None, render(h_) if h_ else None))
+    # the two configuration values by flow: setter (public name) -> Config field -> getter
+    getter_of = {}
+    for nm in ("history_gossip", "history_length"):
+        sb = ctx.body(G, r"^libp2p_gossipsub::config::ConfigBuilder::%s$" % nm)
+        csb = Canon(prog, sb)
+        written = set()
+        for bi in sb.live:
+            for si, st in enumerate(sb.blocks[bi]["stmts"]):
+                if st["k"] == "assign" and st["p"].get("pr") and render(csb.x(sb.rvalue_expr(st["r"]))) == "$2":
+                    fl = [pr["n"] for pr in st["p"]["pr"] if pr["k"] == "field"]
+                    if fl:
+                        written.add(fl[-1])
+        for gb in prog.bodies(G):
+            if gb.kind != "closure" and re.match(r"^libp2p_gossipsub::config::Config::\w+$", gb.npath) and gb.argc == 1:
+                r0 = [render(e) for _, e in Canon(prog, gb).returns()]
+                if len(r0) == 1 and r0[0] in {"$1.%s" % f for f in written}:
+                    getter_of[nm] = gb.npath
+        ctx.ob("mcache-new", "ConfigBuilder::%s is read back by a Config getter" % nm, nm in getter_of, "%s:%d" % (sb.file, sb.line), "field(s) %s -> getter %s" % (sorted(written), getter_of.get(nm)))
     callers = prog.callers(G, MC + r"new$")
     ctx.floor("mcache-new", "MessageCache::new callers", callers, 1)
     for s in callers:
-        a = [render(x) for x in s.body.site_expr(s)[2]]
-        ctx.ob("mcache-new", "Behaviour builds the cache with (history_gossip, history_length)", a == ["libp2p_gossipsub::config::Config::history_gossip(config)", "libp2p_gossipsub::config::Config::history_length(config)"], s.loc(), str(a))
-    for g in ("history_gossip", "history_length"):
-        b = ctx.body(G, r"^libp2p_gossipsub::config::Config::%s$" % g)
-        r0 = [r for _, r in ret_exprs(b)]
-        ctx.ob("mcache-new", "Config::%s returns its field" % g, r0 == ["self.%s" % g], "%s:%d" % (b.file, b.line), str(r0))
+        a = Canon(prog, s.body).args(s)
+        names = [strip_generics(x[1]) if x[0] == "call" else render(x) for x in a]
+        want = {gpos: getter_of.get("history_gossip"), hpos: getter_of.get("history_length")}
+        ok = len(a) == 2 and gpos in (1, 2) and hpos in (1, 2) and all(names[i - 1] == want[i] for i in (1, 2)) and all(x[0] == "call" and len(x[2]) == 1 for x in a) and render(a[0][2][0]) == render(a[1][2][0])
+        ctx.ob("mcache-new", "Behaviour builds the cache with (history_gossip, history_length)", ok, s.loc(), str(names))
     dcc = prog.callers(G, TC + r"DuplicateCache::new$")
     for s in dcc:
-        a = [render(x) for x in s.body.site_expr(s)[2]]
-        ctx.ob("dup-new", "duplicate cache ttl = config.duplicate_cache_time()", a == ["libp2p_gossipsub::config::Config::duplicate_cache_time(config)"], s.loc(), str(a))
+        a = [render(x) for x in Canon(prog, s.body).args(s)]
+        ctx.ob("dup-new", "duplicate cache ttl = config.duplicate_cache_time()", len(a) == 1 and re.match(r"^libp2p_gossipsub::config::Config::duplicate_cache_time\(.*\)$", a[0]) is not None, s.loc(), str(a))
     ctx.floor("dup-new", "DuplicateCache::new callers", dcc, 1)
     # ---- put
     p = ctx.body(G, MC + r"put$")
+    cp = Canon(prog, p)
     pw = "%s:%d" % (p.file, p.line)
-    pe = [s for s, n in calls_on(p, r"^self\.msgs$") if n.endswith("HashMap::entry")]
-    pins = p.call_sites(r"hash_map::VacantEntry::insert$")
-    hp = [s for s in p.call_sites(r"Vec::push$") if "self.history" in render(p.site_expr(s)[2][0])]
+    pe = [s for s, n in calls_on(cp, r"^\$1\.%s$" % M_MSGS) if n.endswith("HashMap::entry")]
+    pins = p.call_sites(r"hash_map::VacantEntry::insert(_entry)?$")
+    hp = [s for s in p.call_sites(r"Vec::push$") if "$1.%s" % M_HIST in render(cp.args(s)[0])]
     ctx.floor("mcache-put", "msgs.entry", pe, 1, exact=True)
     ctx.floor("mcache-put", "msgs insert", pins, 1, exact=True)
     ctx.floor("mcache-put", "history push", hp, 1, exact=True)
     if pe and pins and hp:
-        k = render(p.site_expr(pe[0])[2][1])
-        ctx.ob("mcache-put", "looked up by the message id", k == "libp2p_gossipsub::<types::MessageId as std::clone::Clone>::clone(message_id)", pe[0].loc(), k)
-        vac = lib.switch_edges_on_site(p, pe[0], {"Vacant"}, r"^discr\(")
-        occ = lib.switch_edges_on_site(p, pe[0], {"Occupied"}, r"^discr\(")
-        ctx.ob("mcache-put", "floor:entry edges", len(vac) == 1 and len(occ) == 1, nontrivial=False)
+        k = render(cp.args(pe[0])[1])
+        ctx.ob("mcache-put", "looked up by the message id", k == "$2", pe[0].loc(), k)
+        PE = r"^std::collections::HashMap::entry\(\$1\.%s, \$2\)$" % M_MSGS
+        vac = cp.edges(var_pred(PE, {"Vacant"}))
+        occ = cp.edges(var_pred(PE, {"Occupied"}))
+        ctx.ob("mcache-put", "floor:entry edges", bool(vac) and bool(occ), nontrivial=False)
         for s in pins + hp:
-            ctx.ob("mcache-put", "a message is stored / recorded only for a new id", bool(vac) and p.must_pass_edges(s.bb, vac), s.loc(), "dominated by the Vacant edge")
+            ctx.ob("mcache-put", "a message is stored / recorded only for a new id", cp.dominated(s.bb, vac), s.loc(), "dominated by the Vacant edge")
         for _, t in vac:
             for nm, ss in (("msgs insert", pins), ("history[0] push", hp)):
                 got = lib.count_range(p, [t], p.return_blocks(), lib.bbs(ss))
@@ -241,139 +307,228 @@ def check(ctx):
         for _, t in occ:
             r = p.reachable([t])
             ctx.ob("mcache-put", "duplicate put changes nothing", not (set(lib.bbs(pins + hp)) & r), pw, "no insert / push on the Occupied arm")
-            vals = {rr for s, rr in ret_exprs(p) if s.bb in r}
+            vals = {render(e) for s, e in cp.returns() if s.bb in r}
             ctx.ob("mcache-put", "duplicate put reports false", vals == {"0"}, pw, str(sorted(vals)))
-        r = render(p.site_expr(hp[0])[2][0])
-        ctx.ob("mcache-put", "new id is recorded in history[0]", r == "<std::vec::Vec as std::ops::IndexMut>::index_mut(self.history, 0)", hp[0].loc(), r)
-        r = render(p.site_expr(hp[0])[2][1])
-        ctx.ob("mcache-put", "history entry = (this id, the message's topic)", r == "libp2p_gossipsub::mcache::CacheEntry::CacheEntry{mid: libp2p_gossipsub::<types::MessageId as std::clone::Clone>::clone(message_id), topic: libp2p_gossipsub::<topic::TopicHash as std::clone::Clone>::clone(msg.topic)}", hp[0].loc(), r[:220])
-        r = render(p.site_expr(pins[0])[2][1])
-        ctx.ob("mcache-put", "stored value = (msg, no known peers)", r == "tuple{0: msg, 1: <std::collections::HashSet as std::default::Default>::default()}", pins[0].loc(), r[:120])
-    # ---- get_with_iwant_counts
+        r = render(cp.args(hp[0])[0])
+        ctx.ob("mcache-put", "new id is recorded in history[0]", re.match(r"^<std::vec::Vec as std::ops::IndexMut>::index_mut\(\$1\.%s, 0\)$|^\$1\.%s\[0\]$" % (M_HIST, M_HIST), r) is not None, hp[0].loc(), r)
+        a1 = cp.args(hp[0])[1]
+        f = dict((k_, render(x)) for k_, x in a1[4]) if a1[0] == "agg" else {}
+        ctx.ob("mcache-put", "history entry = (this id, the message's topic)", f.get(E_MID) == "$2" and f.get(E_TOPIC) == "$3.topic", hp[0].loc(), str(f)[:220])
+        r = render(cp.args(pins[0])[1])
+        ctx.ob("mcache-put", "stored value = (msg, no known peers)", re.match(r"^tuple\{0: \$3, 1: (<std::collections::HashSet as std::default::Default>::default|std::collections::HashSet::new|std::default::Default::default)\(\)\}$", r) is not None, pins[0].loc(), r[:120])
+    # ---- get_with_iwant_counts (closure or inline form)
     gw = ctx.body(G, MC + r"get_with_iwant_counts$")
-    r0 = ret_exprs(gw)
-    ok = len(r0) == 1 and re.match(r"^std::option::Option::and_then\(std::collections::HashMap::get\(self\.msgs, message_id\), closure:.*\[self\.iwant_counts, message_id, peer\]\)$", r0[0][1]) is not None
-    ctx.ob("mcache-iwant", "looks the id up in msgs; counters come from iwant_counts", ok, "%s:%d" % (gw.file, gw.line), r0[0][1][:200] if r0 else "")
-    gc = ctx.body(G, MC + r"get_with_iwant_counts::\{closure#0\}$")
-    gcw = "%s:%d" % (gc.file, gc.line)
-    somes = [s for s, r in ret_exprs(gc) if r.startswith("std::option::Option::Some")]
-    ctx.floor("mcache-iwant", "Some result", somes, 1, exact=True)
-    VAL = lambda c, r, l: (l == "true" and re.match(r"^arg2\.0\.validated$", r) is not None) or (l == "false" and re.match(r"^Not\(arg2\.0\.validated\)$", r) is not None)
-    for s in somes:
-        ctx.guarded("mcache-iwant", "a message is returned for IWANT only if validated", s, VAL, "message.validated")
-        r = render(gc.site_expr(s))
-        ctx.ob("mcache-iwant", "returns the message and the peer's counter", r == "std::option::Option::Some{0: tuple{0: arg2.0, 1: count}}", s.loc(), r[:120])
-    cl = [k for k, n in gc.names.items() if n == "count"]
-    cinit = [render(gc.init_expr(k)) for k in cl]
-    want = ("std::collections::hash_map::Entry::or_default(std::collections::HashMap::entry(std::collections::hash_map::Entry::or_default(std::collections::HashMap::entry(^*iwant_counts, "
-            "libp2p_gossipsub::<types::MessageId as std::clone::Clone>::clone(^*message_id))), ^*peer))")
-    ctx.ob("mcache-iwant", "counter is keyed by (message id, peer)", cinit == [want], gcw, str(cinit)[:300])
-    incs = [x for l in cl for x in gc.defs.get((l, "partial"), []) if x[0] == "stmt"]
-    ctx.floor("mcache-iwant", "counter update", incs, 1, exact=True)
-    for x in incs:
-        r = render(gc.rvalue_expr(x[3]))
-        site = mir.Site(gc, x[1], x[2])
-        ctx.ob("mcache-iwant", "counter is incremented by exactly one per request", r == "AddWithOverflow(count, 1).0", site.loc(), r)
-        for s in somes:
-            got = lib.count_range(gc, [0], [s.bb], [x[1]])
-            ctx.ob("mcache-iwant", "every answered request is counted once, before the count is reported", got == (1, 1), site.loc(), "increments on the path to Some: %s" % (got,))
-    nv = gc.guard_edges(lambda c, r, l: (l == "false" and r == "arg2.0.validated") or (l == "true" and r == "Not(arg2.0.validated)"))
-    for _, t in nv:
-        r = gc.reachable([t])
-        ctx.ob("mcache-iwant", "an unvalidated message is neither returned nor counted", not [s for s in gc.call_sites() if s.bb in r] and {rr for s, rr in ret_exprs(gc) if s.bb in r} == {"std::option::Option::None{}"}, gcw, "None without touching the counters")
-    ctx.ob("mcache-iwant", "floor:unvalidated edge", len(nv) == 1, nontrivial=False)
+    CNT = (r"^std::collections::hash_map::Entry::or_(default|insert)\(std::collections::HashMap::entry\(std::collections::hash_map::Entry::or_(default|insert_with)\("
+           r"std::collections::HashMap::entry\(\$1\.%s, \$2\)(, .*?)?\), \$3\)(, 0)?\)$" % M_IW)
+    found = []
+    for b_ in family(prog, gw):
+        cb_ = Canon(prog, b_)
+        for l in {k for k in b_.defs if isinstance(k, int)}:
+            ini = cb_.init(l)
+            if ini is not None and re.match(CNT, render(ini)):
+                found.append((b_, cb_, l))
+    ctx.floor("mcache-iwant", "counter keyed by (message id, peer) in iwant_counts", found, 1, exact=True)
+    ctx.ob("mcache-iwant", "counter is keyed by (message id, peer)", len(found) == 1, "%s:%d" % (gw.file, gw.line), "entry(iwant_counts, message_id).entry(peer)")
+    for b_, cb_, l in found:
+        cr = Canon(prog, b_, {l: "count"}, parent=cb_._parent)
+        bw = "%s:%d" % (b_.file, b_.line)
+        MSG = r"(c+\$2|std::collections::HashMap::get\(\$1\.%s, \$2\)@Some\.0)" % M_MSGS
+        somes = [(s, e) for s, e in cr.returns() if render(e).startswith("std::option::Option::Some")]
+        ctx.floor("mcache-iwant", "Some result", somes, 1, exact=True)
+        validated = cr.edges(bool_pred(r"^%s\.0\.validated$" % MSG, True))
+        unvalidated = cr.edges(bool_pred(r"^%s\.0\.validated$" % MSG, False))
+        for s, e in somes:
+            ctx.ob("mcache-iwant", "a message is returned for IWANT only if validated", cr.dominated(s.bb, validated), s.loc(), "message.validated")
+            r = render(e)
+            ctx.ob("mcache-iwant", "returns the message and the peer's counter", re.match(r"^std::option::Option::Some\{0: tuple\{0: %s\.0, 1: count\}\}$" % MSG, r) is not None, s.loc(), r[:120])
+        incs = [x for x in b_.defs.get((l, "partial"), []) if x[0] == "stmt"] + [x for x in b_.defs.get(l, [])[1:]]
+        ctx.floor("mcache-iwant", "counter update", incs, 1, exact=True)
+        for x in incs:
+            r = cr.r(b_.rvalue_expr(x[3]))
+            site = mir.Site(b_, x[1], x[2])
+            ctx.ob("mcache-iwant", "counter is incremented by exactly one per request", r in ("AddWithOverflow(count, 1).0", "AddWithOverflow(1, count).0"), site.loc(), r)
+            for s, e in somes:
+                got = lib.count_range(b_, [0], [s.bb], [x[1]])
+                ctx.ob("mcache-iwant", "every answered request is counted once, before the count is reported", got == (1, 1), site.loc(), "increments on the path to Some: %s" % (got,))
+        for _, t in unvalidated:
+            r = b_.reachable([t])
+            cs = [s for s in b_.call_sites() if s.bb in r and not lib_gs2.TRANSPARENT.search(strip_generics(b_.call_name(s.term)))]
+            ctx.ob("mcache-iwant", "an unvalidated message is neither returned nor counted", not cs and {render(e) for s, e in cr.returns() if s.bb in r} == {"std::option::Option::None{}"}, bw, "None without touching the counters")
+        ctx.ob("mcache-iwant", "floor:unvalidated edge", bool(unvalidated), nontrivial=False)
+        if b_ is not gw:
+            r0 = [render(e) for _, e in Canon(prog, gw).returns()]
+            ctx.ob("mcache-iwant", "looks the id up in msgs", len(r0) == 1 and re.match(r"^std::option::Option::and_then\(std::collections::HashMap::get\(\$1\.%s, \$2\), closure:" % M_MSGS, r0[0]) is not None, "%s:%d" % (gw.file, gw.line), r0[0][:160] if r0 else "")
     # ---- validate
-    vc = ctx.body(G, MC + r"validate::\{closure#0\}$")
-    ws = vc.field_write_sites("validated")
-    ctx.ob("mcache-validate", "validate marks the message validated", len(ws) == 1 and render(vc.site_expr(ws[0])) == "1", "%s:%d" % (vc.file, vc.line), str([render(vc.site_expr(s)) for s in ws]))
     vb = ctx.body(G, MC + r"validate$")
-    r0 = [r for _, r in ret_exprs(vb)]
-    ctx.ob("mcache-validate", "validate addresses the message by id", len(r0) == 1 and r0[0].startswith("std::option::Option::map(std::collections::HashMap::get_mut(self.msgs, message_id), closure:"), "%s:%d" % (vb.file, vb.line), str(r0)[:160])
-    # ---- get_gossip_message_ids
+    ws = [(b_, s) for b_ in family(prog, vb) for s in b_.field_write_sites("validated")]
+    ctx.ob("mcache-validate", "validate marks the message validated", len(ws) == 1 and render(ws[0][0].site_expr(ws[0][1])) == "1", "%s:%d" % (vb.file, vb.line), str([render(b_.site_expr(s)) for b_, s in ws]))
+    gm = [s for s, n in calls_on(Canon(prog, vb), r"^\$1\.%s$" % M_MSGS)]
+    ctx.ob("mcache-validate", "validate addresses the message by id", len(gm) == 1 and render(Canon(prog, vb).args(gm[0])[1]) == "$2", "%s:%d" % (vb.file, vb.line), str([strip_generics(vb.call_name(s.term)) for s in gm]))
+    # ---- get_gossip_message_ids: adaptor-closure form or explicit-loop form
     gg = ctx.body(G, MC + r"get_gossip_message_ids$")
-    r0 = [r for _, r in ret_exprs(gg)]
-    ok = len(r0) == 1 and re.match(r"^<std::slice::Iter as std::iter::Iterator>::fold\(core::slice::iter\(<std::vec::Vec as std::ops::Index>::index\(self\.history, std::ops::RangeTo::RangeTo\{end: self\.gossip\}\)\), std::vec::Vec::new\(\), closure:.*\[topic, self\]\)$", r0[0]) is not None
-    ctx.ob("mcache-gossip", "gossip window is history[..gossip]", ok, "%s:%d" % (gg.file, gg.line), str(r0)[:260])
-    fo = ctx.body(G, MC + r"get_gossip_message_ids::\{closure#0\}$")
-    fe_ = [k for k, n in fo.names.items() if n == "found_entries"]
-    init = [render(fo.init_expr(k)) for k in fe_]
-    ok = len(init) == 1 and re.match(r"^std::iter::Iterator::collect\(std::iter::Iterator::filter_map\(core::slice::iter\((<std::vec::Vec as std::ops::Deref>::deref\()?entries\)?\), closure:.*\[\^topic, \^\*self\]\)\)$", init[0]) is not None
-    ctx.ob("mcache-gossip", "each slot's entries are filtered", ok, "%s:%d" % (fo.file, fo.line), str(init)[:240])
-    ap = fo.call_sites(r"Vec::append$|Vec as std::iter::Extend>::extend$")
-    ok = len(ap) == 1 and render(fo.site_expr(ap[0])[2][0]) == "current_entries" and render(fo.site_expr(ap[0])[2][1]) == "found_entries" and [r for _, r in ret_exprs(fo)] == ["current_entries"]
-    ctx.ob("mcache-gossip", "filtered ids of every slot are accumulated", ok, "%s:%d" % (fo.file, fo.line), "append(current_entries, found_entries); return current_entries")
-    fm = ctx.body(G, MC + r"get_gossip_message_ids::\{closure#0\}::\{closure#0\}$")
-    fmw = "%s:%d" % (fm.file, fm.line)
-    somes = [s for s, r in ret_exprs(fm) if r.startswith("std::option::Option::Some")]
-    ctx.floor("mcache-gossip", "Some(id) result", somes, 1, exact=True)
-    MAPV = r"std::option::Option::map\(std::collections::HashMap::get\(\^\*self\.msgs, entry\.mid\), closure:[^\[]*\[\]\)"
-    for s in somes:
-        ctx.guarded("mcache-gossip", "only ids of the requested topic are offered", s, lambda c, r, l: l == "true" and re.match(r"^std::cmp::(impls::|PartialEq::)?eq\(entry\.topic, \^topic\)$", r) is not None, "entry.topic == topic")
-        ctx.guarded("mcache-gossip", "only messages still in the cache are offered", s, lambda c, r, l: l == "Some" and re.match(r"^discr\(%s\)$" % MAPV, r) is not None, "msgs.get(mid) is Some")
-        ctx.guarded("mcache-gossip", "only validated messages of the topic are offered", s, lambda c, r, l: l == "true" and re.match(r"^%s@Some\.0$" % MAPV, r) is not None, "msgs.get(mid).validated == true")
-        r = render(fm.site_expr(s))
-        ctx.ob("mcache-gossip", "the offered id is the entry's id", r == "std::option::Option::Some{0: libp2p_gossipsub::<types::MessageId as std::clone::Clone>::clone(entry.mid)}", s.loc(), r[:140])
-    vcl = ctx.body(G, MC + r"get_gossip_message_ids::\{closure#0\}::\{closure#0\}::\{closure#0\}$")
-    r0 = [r for _, r in ret_exprs(vcl)]
-    ctx.ob("mcache-gossip", "the flag tested is the message's `validated`", r0 == ["arg2.0.validated"], "%s:%d" % (vcl.file, vcl.line), str(r0))
+    cgg = Canon(prog, gg)
+    ggw = "%s:%d" % (gg.file, gg.line)
+    fam = family(prog, gg)
+    hist_reads = []
+    for b_ in fam:
+        cb_ = Canon(prog, b_)
+        for s in b_.call_sites():
+            n = strip_generics(b_.call_name(s.term))
+            if lib_gs2.TRANSPARENT.search(n):
+                continue
+            for a in cb_.args(s):
+                if any(render(x) == "$1.%s" % M_HIST for x in mir.walk(a) if x[0] == "field"):
+                    hist_reads.append((b_, s, render(cb_.site(s))))
+    WIN = r"<std::vec::Vec as std::ops::Index>::index\(\$1\.%s, std::ops::RangeTo::RangeTo\{end: \$1\.%s\}\)" % (M_HIST, M_GOSSIP)
+    direct = [h for h in hist_reads if re.search(r"\(\$1\.%s[,)]" % M_HIST, h[2]) and re.match(r"^[^()]*\(\$1\.%s" % M_HIST, h[2])]
+    ctx.ob("mcache-gossip", "only history[..gossip] is read", len(direct) == 1 and re.match("^%s$" % WIN, direct[0][2]) is not None, direct[0][1].loc() if direct else ggw, str([h[2][:140] for h in direct]))
+    # (b) emit sites
+    emits = []      # (body, canon, site, entry_expr_render, kind)
+    for b_ in fam:
+        cb_ = Canon(prog, b_)
+        for s, e in cb_.returns():
+            m = re.match(r"^std::option::Option::Some\{0: (.*)\.%s\}$" % E_MID, render(e))
+            if m and b_ is not gg:
+                emits.append((b_, cb_, s, m.group(1), "filter_map"))
+        for s in b_.call_sites(r"Vec::push$"):
+            a = cb_.args(s)
+            m = re.match(r"^(.*)\.%s$" % E_MID, render(a[1]))
+            if m:
+                emits.append((b_, cb_, s, m.group(1), "push"))
+    ctx.floor("mcache-gossip", "site that offers a message id", emits, 1, exact=True)
+    for b_, cb_, s, ent_, kind in emits:
+        EN = re.escape(ent_)
+        gs = cb_.guards(s.bb)
+        ctx.ob("mcache-gossip", "only ids of the requested topic are offered", any(rel_pred("^%s\\.%s$" % (EN, E_TOPIC), r"^\$2$", "Eq")(a) for a in gs), s.loc(), "entry.topic == topic")
+        GET = r"std::collections::HashMap::get\(\$1\.%s, %s\.%s\)" % (M_MSGS, EN, E_MID)
+        okv, det = False, ""
+        for a in gs:
+            if a[0] == "bool" and a[2] is True and re.search(GET, a[1]):
+                if re.match(r"^%s@Some\.0\.0\.validated$" % GET, a[1]):
+                    okv = True
+                else:
+                    # the truth value comes out of a closure applied to the stored message: it must be its `validated` flag
+                    raw_conds = [x for x in (b_.switch_info(bi)[0] for bi in b_.live if b_.switch_info(bi)) if re.search(GET, cb_.r(x))]
+                    cls = [c for x in raw_conds for c in cb_.closures_in(x)]
+                    rr = {render(e) for c in cls for _, e in c.returns()}
+                    okv = bool(cls) and all(re.match(r"^c+\$2\.0\.validated$", r) for r in rr)
+                    det = str(sorted(rr))
+        ctx.ob("mcache-gossip", "an id is offered only for a present, validated message", okv, s.loc(), "msgs.get(mid) is Some and its `validated` is true %s" % det)
+        # (c) completeness
+        if kind == "filter_map":
+            r0 = [render(e) for _, e in cgg.returns()]
+            ok_fold = len(r0) == 1 and re.match(r"^<std::slice::Iter as std::iter::Iterator>::fold\(core::slice::iter\(%s\), std::vec::Vec::new\(\), closure:" % WIN, r0[0]) is not None
+            ctx.ob("mcache-gossip", "every slot of the window is visited", ok_fold, ggw, str(r0)[:200])
+            fo = b_
+            while fo is not None and fo.parent != gg.path:
+                fo = next((x for x in fam if x.path == fo.parent), None)
+            ok_acc, detail = False, ""
+            if fo is not None and fo is not b_:
+                cfo = Canon(prog, fo)
+                ap = [x for x in fo.call_sites(r"Vec::append$|Vec as std::iter::Extend>::extend$")]
+                if len(ap) == 1:
+                    a = cfo.args(ap[0])
+                    src = cfo.init(a[1][1]) if a[1][0] == "local" else a[1]
+                    okc = src is not None and re.match(r"^std::iter::Iterator::collect\(std::iter::Iterator::filter_map\(core::slice::iter\(c\$3\), closure:", render(src)) is not None and \
+                        any(c.b is b_ for c in cfo.closures_in(fo.rvalue_expr(fo.defs[a[1][1]][0][3]) if a[1][0] == "local" and fo.defs[a[1][1]][0][0] == "stmt" else fo.call_expr(fo.defs[a[1][1]][0][3], fo.defs[a[1][1]][0][1]))) if a[1][0] == "local" else False
+                    rets = [render(e) for _, e in cfo.returns()]
+                    ok_acc = okc and render(a[0]) == "c$2" and rets == ["c$2"]
+                    detail = "append(acc, collect(filter_map(iter(slot), f))); return acc: %s" % ok_acc
+            ctx.ob("mcache-gossip", "every offered id of every visited slot is accumulated", ok_acc, "%s:%d" % ((fo or gg).file, (fo or gg).line), detail)
+        else:
+            # explicit loops: outer over the window, inner over the slot, one push per qualifying entry, the pushed vector is returned
+            cb2 = cb_
+            vec = cb2.args(s)[0]
+            rets = [e for _, e in cb2.returns()]
+            ok_ret = b_ is gg and len(rets) == 1 and vec[0] == "local" and rets[0] == vec
+            vinit = cb2.init(vec[1]) if vec[0] == "local" else None
+            others = [n for s2, n in calls_on(cb2, "^%s$" % re.escape(render(vec))) if re.search(MUT, n) and s2 != s]
+            ctx.ob("mcache-gossip", "the vector the ids are pushed into starts empty and is what is returned", ok_ret and vinit is not None and re.match(r"^std::vec::Vec::new\(\)$", render(vinit)) is not None and not others, s.loc(), "init %s, other mutators %s" % (render(vinit) if vinit else None, others))
+            loops = []
+            for text, labels, sw, cond in b_.guards_on_all_paths(s.bb):
+                if labels == frozenset({"Some"}) and cond[0] == "discr" and cond[1][0] == "call" and re.search(r"iter::Iterator>::next$", strip_generics(cond[1][1])) and cond[1][2] and cond[1][2][0][0] == "local":
+                    loops.append((sw, cond[1][2][0][1], cond[1][3]))
+            loops.sort(key=lambda x: len(b_.dominators().get(x[0], ())))
+            ok_nest = False
+            if len(loops) == 2:
+                (osw, oit, ohead), (isw, iit, ihead) = loops
+                cl2 = Canon(prog, b_, {oit: "oit", iit: "iit"})
+                oi, ii = cl2.init(oit), cl2.init(iit)
+                ok_nest = oi is not None and ii is not None and re.search(WIN, render(oi)) is not None and re.search(r"next\(oit\)@Some\.0\)*$", render(ii)) is not None and \
+                    re.match(r"^<.* as std::iter::Iterator>::next\(iit\)@Some\.0$", ent_.replace(cb_.r(("local", iit, None)), "iit")) is not None
+                # one push per qualifying entry: from the last guard's accepting edge the push is on every path back to the inner head
+                acc = cb_.edges(lambda a: a[0] == "bool" and a[2] is True and re.search(GET, a[1]) is not None)
+                got = lib.count_range(b_, [t for _, t in acc], [ihead], [s.bb]) if acc else None
+                ctx.ob("mcache-gossip", "every qualifying entry is pushed exactly once", got == (1, 1), s.loc(), "pushes per qualifying entry: %s" % (got,))
+                # no early exit from the loops
+                body_r = b_.reachable([t for t, ls in b_.switch_info(osw)[1].items() if "Some" in ls], stop_nodes=[ohead])
+                ctx.ob("mcache-gossip", "the loops visit every slot and entry (no early exit)", not (set(b_.return_blocks()) & body_r), s.loc(), "no return inside the loops")
+            ctx.ob("mcache-gossip", "every slot of the window is visited", ok_nest, ggw, "outer loop over history[..gossip], inner loop over the slot's entries: %s" % ok_nest)
     # ---- shift
     sh = ctx.body(G, MC + r"shift$")
+    csh = Canon(prog, sh)
     shw = "%s:%d" % (sh.file, sh.line)
-    hist = calls_on(sh, r"^self\.history$")
-    kinds = sorted(n.split("::")[-1] for _, n in hist)
-    ctx.ob("mcache-shift", "history is only tested, popped and front-inserted", kinds == ["insert", "is_empty", "pop"], shw, str(kinds))
+    hist = calls_on(csh, r"^\$1\.%s$" % M_HIST)
+    kinds = sorted(n.split("::")[-1] for _, n in hist if re.search(MUT, n))
+    ctx.ob("mcache-shift", "history is only popped and front-inserted", kinds == ["insert", "pop"], shw, str(kinds))
     pop = [s for s, n in hist if n.endswith("Vec::pop")]
     insf = [s for s, n in hist if n.endswith("Vec::insert")]
-    emp = lib.switch_edges_on(sh, r"^std::vec::Vec::is_empty\(self\.history\)$", {"false"})
+    nonempty = csh.edges(rel_pred(r"^std::vec::Vec::len\(\$1\.%s\)$" % M_HIST, r"^0$", "Ne"))
     rets = sh.return_blocks()
-    for _, t in emp:
+    for _, t in nonempty:
         for nm, ss in (("the last slot is popped", pop), ("one empty slot is inserted", insf)):
             got = lib.count_range(sh, [t], rets, lib.bbs(ss))
             ctx.ob("mcache-shift", "%s exactly once per shift" % nm, got == (1, 1), shw, str(got))
-    ctx.ob("mcache-shift", "floor:non-empty edge", len(emp) == 1, nontrivial=False)
+    ctx.ob("mcache-shift", "floor:non-empty edge", bool(nonempty), nontrivial=False)
     for s in insf:
-        a = [render(x) for x in sh.site_expr(s)[2]]
+        a = [render(x) for x in csh.args(s)]
         ctx.ob("mcache-shift", "one empty slot is inserted at the front", a[1:] == ["0", "std::vec::Vec::new()"], s.loc(), str(a[1:]))
         if pop:
             lib.precedes(ctx, "mcache-shift", "the old slot is dropped before the new one is added", sh, lib.bbs(pop), [s.bb], "pop precedes insert(0, ..)", s.loc())
-    nxt = sh.call_sites(r"IntoIter as std::iter::Iterator>::next$")
-    ctx.floor("mcache-shift", "loop over the popped slot", nxt, 1, exact=True)
-    its = [render(sh.init_expr(k)) for k, n in sh.names.items() if n == "iter"]
-    ctx.ob("mcache-shift", "the entries expired are those of the popped slot", any(re.search(r"into_iter\(std::option::Option::(expect|unwrap[a-z_]*)\(std::vec::Vec::pop\(self\.history\)", x) for x in its), shw, str(its)[:200])
-    E = r"<std::vec::IntoIter as std::iter::Iterator>::next\(iter\)@Some\.0\.mid"
-    mrem = [s for s, n in calls_on(sh, r"^self\.msgs$") if n.endswith("HashMap::remove")]
-    irem = [s for s, n in calls_on(sh, r"^self\.iwant_counts$") if n.endswith("HashMap::remove")]
-    if nxt:
-        some = [t for _, t in lib.switch_edges_on_site(sh, nxt[0], {"Some"}, r"^discr\(<std::vec::IntoIter as std::iter::Iterator>::next\(iter\)\)$")]
+    mrem = [s for s, n in calls_on(csh, r"^\$1\.%s$" % M_MSGS) if n.endswith("HashMap::remove")]
+    irem = [s for s, n in calls_on(csh, r"^\$1\.%s$" % M_IW) if n.endswith("HashMap::remove")]
+    loops = []
+    for s in mrem[:1]:
+        for text, labels, sw, cond in sh.guards_on_all_paths(s.bb):
+            if labels == frozenset({"Some"}) and cond[0] == "discr" and cond[1][0] == "call" and re.search(r"iter::Iterator>::next$", strip_generics(cond[1][1])) and cond[1][2] and cond[1][2][0][0] == "local":
+                loops.append((sw, cond[1][2][0][1], cond[1][3]))
+    ctx.floor("mcache-shift", "loop over the popped slot", loops, 1, exact=True)
+    if loops:
+        sw, itl, headbb = loops[0]
+        c2 = Canon(prog, sh, {itl: "it"})
+        ii = c2.init(itl)
+        ctx.ob("mcache-shift", "the entries expired are those of the popped slot", ii is not None and re.search(r"into_iter\(std::option::Option::(expect|unwrap\w*)\(std::vec::Vec::pop\(\$1\.%s\)" % M_HIST, render(ii)) is not None, shw, render(ii)[:200] if ii else "")
+        some = [t for t, ls in sh.switch_info(sw)[1].items() if "Some" in ls]
         for nm, ss in (("message", mrem), ("iwant counters", irem)):
-            got = lib.count_range(sh, some, [nxt[0].bb], lib.bbs(ss)) if some else None
+            got = lib.count_range(sh, some, [headbb], lib.bbs(ss)) if some else None
             ctx.ob("mcache-shift", "every popped entry's %s is removed" % nm, got == (1, 1), shw, "removals per popped entry: %s" % (got,))
             for s in ss:
-                k = render(sh.site_expr(s)[2][1])
-                ctx.ob("mcache-shift", "removal is keyed by the popped entry's id", re.match("^%s$" % E, k) is not None, s.loc(), k[-60:])
+                k = render(c2.args(s)[1])
+                ctx.ob("mcache-shift", "removal is keyed by the popped entry's id", re.match(r"^<.* as std::iter::Iterator>::next\(it\)@Some\.0\.%s$" % E_MID, k) is not None, s.loc(), k[-60:])
     # ---- removal pairing (K4): msgs.remove(k) is always accompanied by iwant_counts.remove(k)
     n_pairs = 0
-    for b in prog.bodies(G):
-        if not re.search(r"^libp2p_gossipsub::mcache::", b.npath):
+    for b_ in prog.bodies(G):
+        if not re.search(r"^libp2p_gossipsub::mcache::", b_.npath):
             continue
-        ms = [s for s, n in calls_on(b, r"(^|\.)msgs$") if n.endswith("HashMap::remove")]
-        iws = [s for s, n in calls_on(b, r"(^|\.)iwant_counts$") if n.endswith("HashMap::remove")]
+        cb_ = Canon(prog, b_)
+        ms = [s for s, n in calls_on(cb_, r"(^|\.)%s$" % M_MSGS) if re.search(r"HashMap::(remove|remove_entry)$", n)]
+        iws = [s for s, n in calls_on(cb_, r"(^|\.)%s$" % M_IW) if re.search(r"HashMap::(remove|remove_entry)$", n)]
         for m in ms:
             n_pairs += 1
-            k = render(b.site_expr(m)[2][1])
-            cands = [w for w in iws if render(b.site_expr(w)[2][1]) == k]
+            k = render(cb_.args(m)[1])
+            cands = [w_ for w_ in iws if render(cb_.args(w_)[1]) == k]
             ok = False
             for w_ in cands:
-                if b.dominates(w_.bb, m.bb) or b.must_pass_nodes(b.succ[m.bb], b.return_blocks() + [m.bb], [w_.bb]):
+                if b_.dominates(w_.bb, m.bb) or b_.must_pass_nodes(b_.succ[m.bb], b_.return_blocks() + [m.bb], [w_.bb]):
                     ok = True
-            fn = b.npath.split("::")[-2] + "::" + b.npath.split("::")[-1]
+            fn = b_.npath.split("::")[-2] + "::" + b_.npath.split("::")[-1]
             ctx.ob("mcache-remove", "every msgs removal also drops the id's iwant counters (%s)" % fn, ok, m.loc(),
-                   "iwant_counts.remove(%s) accompanies msgs.remove on every path" % k[-40:] if ok else
-                   "msgs.remove(%s) without iwant_counts.remove of the same id: a later put of the same id continues counting from the stale value" % k[-40:])
+                   "iwant_counts.remove(k) accompanies msgs.remove(k) on every path" if ok else
+                   "msgs.remove without iwant_counts.remove of the same id: a later put of the same id continues counting from the stale value")
     ctx.ob("mcache-remove", "floor:msgs removal sites", n_pairs >= 2, nontrivial=False, msg="%d" % n_pairs)
     rm = ctx.body(G, MC + r"remove$")
-    r0 = [r for _, r in ret_exprs(rm)]
-    ctx.ob("mcache-remove", "remove returns the removed message", r0 == ["std::collections::HashMap::remove(self.msgs, message_id)"], "%s:%d" % (rm.file, rm.line), str(r0))
+    r0 = [render(e) for _, e in Canon(prog, rm).returns()]
+    ctx.ob("mcache-remove", "remove returns the removed message", r0 == ["std::collections::HashMap::remove($1.%s, $2)" % M_MSGS], "%s:%d" % (rm.file, rm.line), str(r0))
     # ---- heartbeat shifts once
     hb = ctx.body(G, r"^libp2p_gossipsub::behaviour::Behaviour::heartbeat$")
     sc = hb.call_sites(MC[1:] + r"shift$")
